@@ -98,6 +98,15 @@ func runC03(c *core.Ctx) {
 		if w.Hist%5 != 0 {
 			k.Do("commit-all")
 		}
+		if w.Hist%24 == 19 {
+			k.DeepPaths()
+			k.goit("add", "deep", "long")
+			k.goit("commit", "-m", "deep and long paths")
+			k.goit("reset", "--mixed", "HEAD@{0}")
+			k.goit("status")
+			k.goit("restore", "--staged", "deep")
+			k.goit("commit", "-m", "again")
+		}
 		if w.Hist%24 == 10 {
 			k.BoundaryFiles("blk/")
 			k.goit("add", "blk")
